@@ -46,7 +46,8 @@ def make_case(batch, seed):
     conts = []
     for _ in range(ncont):
         sc = pw.gen_script(rng)
-        conts.append({'script': sc, 'advance': rng.randrange(0, 60)})
+        sc['rounds'] = max(sc['rounds'], rng.randint(1, 3))
+        conts.append({'script': sc, 'advance': rng.randrange(0, 160)})
     # the killed process is reaped at once or left a zombie; the probe uses the blocking or the polling path
     return {'prog': {'world': 'proc-crash', 'script': batch['profile'], 'kill_at': k, 'contenders': conts,
                      'zombie': cfg % 2 == 1, 'timed_probe': (cfg // 2) % 2 == 1},
